@@ -30,6 +30,8 @@ type Program struct {
 	Funcs   []*ssa.Function // every Helios source function incl. closures, sorted
 	inScope map[string]bool // import closure of cmd/helios
 	qual    bool            // Desc qualification toggle (see DescQ)
+	locks   *LockInfo
+	fresh   *Fresh
 }
 
 // LoadProgram loads ./... under dir.  overlay (may be nil) replaces file contents in memory
